@@ -129,6 +129,27 @@ theorem sorting_keeps_candidates (y : Bytes × Bytes) (l : List (Bytes × Bytes)
 
 /-! ### Where the parser passes words through (D15) -/
 
+/-- skipping pending positional arguments changes nothing else -/
+theorem skipPositional_frame (n : Nat) : ∀ s : CS, (s.skipPositional n).cmd = s.cmd ∧ (s.skipPositional n).P = s.P ∧
+    (s.skipPositional n).args = s.args ∧ (s.skipPositional n).restSeen = s.restSeen := by
+  induction n with
+  | zero => intro s; exact ⟨rfl, rfl, rfl, rfl⟩
+  | succ n ih =>
+    intro s
+    unfold CS.skipPositional
+    split
+    · exact ⟨rfl, rfl, rfl, rfl⟩
+    · split
+      · exact ⟨rfl, rfl, rfl, rfl⟩
+      · exact ih _
+
+/-- a rest positional argument is never skipped -/
+theorem skipPositional_keeps_rest (n : Nat) (s : CS) (p : Nat × Nat) (ps : List (Nat × Nat))
+    (h : s.positional = p :: ps) (hr : (s.P.argAt p).isRemaining = true) : s.skipPositional n = s := by
+  cases n with
+  | zero => rfl
+  | succ n => unfold CS.skipPositional; simp [h, hr]
+
 /-- **The terminator ends the walk**: under PassDoubleDash a `--` among the already-typed words
     stops the walk with `terminated`, whatever follows, and in the command context reached so far. -/
 theorem terminator_terminates (fuel : Nat) (s : CS) (opt : Option ORef) (w : Bytes) (rest : List Bytes)
@@ -136,7 +157,8 @@ theorem terminator_terminates (fuel : Nat) (s : CS) (opt : Option ORef) (w : Byt
     (compWalk (fuel + 1) s opt).2.2 = true ∧ (compWalk (fuel + 1) s opt).2.1 = none ∧
     (compWalk (fuel + 1) s opt).1.cmd = s.cmd := by
   unfold compWalk
-  simp [hargs, hp, CS.skipPositional]
+  simp [hargs, hp]
+  exact (skipPositional_frame _ _).1
 
 /-- **After the terminator nothing but positional values**: no option name and no command is
     offered for the last word; a pending positional argument's type still completes its value. -/
